@@ -118,6 +118,14 @@ func scenarios() []scenario {
 		dump.File{Name: "y.yang", Text: `module y { ` + H("y") + ` typedef t { type int32; } identity b; grouping g { leaf gy { type t; } } container cy; }`},
 		dump.File{Name: "m.yang", Text: `module m { ` + H("m") + ` import x { prefix p; } include s1; typedef tm { type p:t; } identity im { base p:b; } leaf lm { type tm; } leaf lm2 { type p:t; } container um { uses p:g; } augment /p:cx { leaf am { type p:t; } } leaf rm { type identityref { base p:b; } } }`},
 		dump.File{Name: "s1.yang", Text: `submodule s1 { belongs-to m { prefix m; } import y { prefix p; } typedef ts { type p:t; } identity is { base p:b; } leaf ls { type ts; } leaf ls2 { type p:t; } container us { uses p:g; } augment /p:cy { leaf as { type p:t; } } leaf rs { type identityref { base p:b; } } }`})
+	// groupings that use each other across the module boundary: which uses is blamed
+	add("mutual-groupings-across-modules", nil,
+		dump.File{Name: "ma.yang", Text: `module ma { ` + H("ma") + ` import mb { prefix mb; } grouping ga { leaf la { type string; } uses mb:gb; } container ca { uses ga; } }`},
+		dump.File{Name: "mb.yang", Text: `module mb { ` + H("mb") + ` import ma { prefix ma; } grouping gb { leaf lb { type string; } uses ma:ga; } container cb { uses gb; } }`})
+	add("mutual-groupings-three-modules", nil,
+		dump.File{Name: "ma.yang", Text: `module ma { ` + H("ma") + ` import mb { prefix mb; } grouping ga { uses mb:gb; } }`},
+		dump.File{Name: "mb.yang", Text: `module mb { ` + H("mb") + ` import mc { prefix mc; } grouping gb { container k { uses mc:gc; } } }`},
+		dump.File{Name: "mc.yang", Text: `module mc { ` + H("mc") + ` import ma { prefix ma; } grouping gc { uses ma:ga; } leaf l { type string; } }`})
 	// two revisions of a module include the same submodule
 	add("two-revisions-share-submodule", []string{"two-revisions-include-one-submodule"},
 		dump.File{Name: "m1.yang", Text: `module m { ` + H("m") + ` revision 2020-01-01; include s; leaf a { type t; } }`},
